@@ -1,4 +1,5 @@
 import EaModel.Properties.SchedCommon
+import EaModel.Lemmas.Frame
 /-!
 # C07 — job status, callbacks and job store stay consistent
 -/
@@ -78,5 +79,27 @@ theorem set_next_run_callbacks (s : St) (j : Nat) (nr : Option Int) (h : (setNex
 
 -- non-vacuity (executable check): a finished one-shot job exists in a reachable state
 #guard ((runOps (initSt {} 0) [.create 1 (some 7) (.once 5) [] [], .sleep 10]).job 1).status == .finished
+
+
+/-- The record of a job that is not RUNNING — status, (absent) run time, countdown value, callbacks, store
+membership — is not changed by anything but an operation on that very job: not by wake-ups, sleeps, switching
+the scheduler, creations of and operations on other jobs, however many. In particular a finished job stays
+finished and a paused or stopped job stays as it is until its own resume/reset. -/
+theorem not_running_record_frozen (env : Env) (now : Int) (en : Bool) (ops more : List Op) (i : Nat) :
+    let s := runOps (initSt env now en) ops
+    (s.job i).status ≠ .running → (∀ op ∈ more, op.target ≠ some i ∧ op.adds ≠ some i) →
+    (runOps s more).job i = s.job i := by
+  intro s hs hop
+  have hI : Inv s := inv_reachable env now en ops
+  have hnq : i ∉ s.queue := fun hm => hs (hI.q.run i hm)
+  suffices h : ∀ (more : List Op) (s : St), Inv s → i ∉ s.queue →
+      (∀ op ∈ more, op.target ≠ some i ∧ op.adds ≠ some i) → Frozen i s (runOps s more) from (h more s hI hnq hop).1
+  intro more
+  induction more with
+  | nil => intro s _ h _; exact Frozen.refl h
+  | cons op more ih =>
+    intro s hI hnq hop
+    have f1 := step_frozen s op i hI hnq (hop op (by simp)).1 (hop op (by simp)).2
+    exact f1.trans (ih _ (step_inv s op hI) f1.2 (fun o ho => hop o (by simp [ho])))
 
 end Ea.C07
